@@ -71,6 +71,10 @@ func c05Jobs(tier string) []string {
 	// an ICMP fragmentation-needed that arrives late in the segment's timer interval, and the
 	// smaller segments sent in answer are lost: the timer must run a full RTO from that resend
 	add("or=rw,devs=pl,mss=1460,w=1460+1460,ptb=576,ptbd=150,rtt=10,b=2", 1)
+	// a slow peer acknowledges one segment every 150 / 120 ms (nothing new is sent meanwhile) and
+	// then goes silent: the first timeout comes long after the last transmission
+	add("or=r,devs=,mss=100,w=6x100,trickle=150x4,b=0", 1)
+	add("or=r,devs=,mss=100,w=10x100,trickle=120x6,b=0", 1)
 	add("or=r,devs=l,mss=100,w=3000,silent=1,b=1", 2)
 	add("or=r,devs=l,mss=100,w=3000,silent=1,rtt=50,b=1", 2)
 	if tier == "thorough" {
